@@ -1,9 +1,129 @@
 import Driver.Proto
+import ScrapliModel.Netconf.Store
 namespace Driver
-open Scrapli
+open Scrapli Scrapli.Netconf.Store
 
-/-- line-protocol handler for property C08 (arguments after the leading `c08` token) -/
+/-! Line protocol for property C08 (arguments after the leading `c08` token)
+
+* `scan <hex>` → `m10 m11 after10 after11 rpc id` : the scanners on one byte string
+  (`after*` and `id` are `N` when there is no match) — diffed against Go `regexp` by the harness.
+* `sess <1.0|1.1> <script>` → `dom reasons model pending spec` where the script is a `;`-separated list of
+  `C` (call) `P` (poll) `X` (expire) `R<hex>` (one read) and deliveries
+  `D|E:<body>:<tail>|<chunks>`, `D|R:<to>:<body>:<tail>|<chunks>`,
+  `D|ER:<ebody>:<etail>:<to>:<body>:<tail>|<chunks>` (chunks: comma separated hex, `.` = none).
+  `dom` = every delivery satisfies `Delivery.valid` and there are no reads outside deliveries;
+  `reasons` = per delivery the first failing hypothesis (`ok` if none); `model` / `spec` = completed calls as
+  `id:hex` / `id:T` joined by `,` (`.` = none). `model` carries the raw message the model's call
+  returned; `spec` the reply the server framed (body only) that the property says must come back.
+-/
+
+def c08ver (s : String) : Option Ver :=
+  if s == "1.0" then some .v10 else if s == "1.1" then some .v11 else none
+
+inductive Item
+  | ev (e : Ev)
+  | dlv (d : Delivery)
+
+def parseUnit (s : String) : Option Burst :=
+  match s.splitOn ":" with
+  | ["E", b, t] => do pure (.echoOnly ⟨← fromHex b, ← fromHex t⟩)
+  | ["R", to, b, t] => do pure (.replyOnly ⟨← to.toNat?, ← fromHex b, ← fromHex t⟩)
+  | ["ER", eb, et, to, b, t] => do
+    pure (.echoReply ⟨← fromHex eb, ← fromHex et⟩ ⟨← to.toNat?, ← fromHex b, ← fromHex t⟩)
+  | _ => none
+
+def parseItem (s : String) : Option Item :=
+  if s == "C" then some (.ev .call)
+  else if s == "P" then some (.ev .poll)
+  else if s == "X" then some (.ev .expire)
+  else if s.startsWith "R" then (fromHex (s.drop 1).toString).map fun b => .ev (.read b)
+  else match s.splitOn "|" with
+    | ["D", u, cs] => do pure (.dlv ⟨← parseUnit u, ← hexList cs⟩)
+    | _ => none
+
+def itemEvents : Item → List Ev
+  | .ev e => [e]
+  | .dlv d => d.chunks.map .read
+
+def showResults (rs : List (Nat × Option Bytes)) : String :=
+  if rs.isEmpty then "." else
+  ",".intercalate (rs.map fun (id, o) => match o with
+    | some m => s!"{id}:{toHex m}"
+    | none => s!"{id}:T")
+
+/-- what the property demands, computed from the server's side of the story only: a call whose
+reply (the reply whose `to` is the call's id) has been delivered in full returns that reply at its
+next poll; a call that expires returns an error. -/
+structure SpecSt where
+  nextId : Nat
+  pending : Option Nat
+  delivered : List Reply
+  results : List (Nat × Option Bytes)
+
+def specStep (s : SpecSt) : Item → SpecSt
+  | .ev .call => match s.pending with
+    | some _ => s
+    | none => { s with pending := some s.nextId, nextId := s.nextId + 1 }
+  | .ev (.read _) => s
+  | .ev .poll => match s.pending with
+    | none => s
+    | some id => match s.delivered.find? (fun r => r.to == id) with
+      | some r => { s with pending := none, results := s.results ++ [(id, some r.body)] }
+      | none => s
+  | .ev .expire => match s.pending with
+    | none => s
+    | some id => { s with pending := none, results := s.results ++ [(id, none)] }
+  | .dlv d => { s with delivered := s.delivered ++ d.burst.replies }
+
+/-- the hypotheses of `goodReply` / `goodEcho` / `Delivery.valid` that fail, joined by `+`
+(`ok` if none) -/
+def joinReasons (l : List (Bool × String)) : String :=
+  let bad := (l.filter (·.1)).map (·.2)
+  if bad.isEmpty then "ok" else "+".intercalate bad
+
+def replyReason (v : Ver) (r : Reply) : String :=
+  joinReasons [(!allLF r.tail, "tail"), (containsRpcClose (r.body ++ r.tail), "rpc"),
+    (!delimMatch v r.body, "nofire"), (!noEarlyFire v r.body, "early"),
+    (!(firstId r.body == some r.to && r.to != 0), "id"),
+    (!(v == .v10 || startsLFOrEmpty r.body), "start")]
+
+def echoReason (v : Ver) (e : Echo) : String :=
+  joinReasons [(!allLF e.tail, "etail"), (!containsRpcClose e.body, "erpc"),
+    (!delimMatch v e.body, "enofire"), (!noEarlyFire v e.body, "eearly"),
+    (!(afterFirstOpt v e.body == some []), "eafter")]
+
+def deliveryReason (v : Ver) (d : Delivery) : String :=
+  let r := match d.burst with
+    | .echoOnly e => echoReason v e
+    | .replyOnly r => replyReason v r
+    | .echoReply e r => if echoReason v e != "ok" then echoReason v e else replyReason v r
+  if r != "ok" then r
+  else if !(d.chunks.flatten == d.burst.bytes) then "seg"
+  else if !d.valid v then "idle"
+  else "ok"
+
+def showOptBytes : Option Bytes → String
+  | some b => toHex b
+  | none => "N"
+
 def handleC08 : List String → String
+  | ["scan", h] =>
+    match fromHex h with
+    | some b =>
+      let id := match firstId b with | some n => toString n | none => "N"
+      s!"{b2s (delimMatch .v10 b)} {b2s (delimMatch .v11 b)} {showOptBytes (afterFirstOpt .v10 b)} {showOptBytes (afterFirstOpt .v11 b)} {b2s (containsRpcClose b)} {id}"
+    | none => "bad-op"
+  | ["sess", v, script] =>
+    match c08ver v, (script.splitOn ";").mapM parseItem with
+    | some v, some items =>
+      let dom := items.all fun it => match it with | .dlv d => d.valid v | .ev (.read _) => false | _ => true
+      let rs := items.filterMap fun it => match it with | .dlv d => some (deliveryReason v d) | _ => none
+      let reasons := if rs.isEmpty then "." else ",".intercalate rs
+      let c := run v init (items.flatMap itemEvents)
+      let sp := items.foldl specStep ⟨Gen.Netconf.initialMessageID, none, [], []⟩
+      let pend := match c.pending with | some id => toString id | none => "-"
+      s!"{b2s dom} {reasons} {showResults c.results} {pend} {showResults sp.results}"
+    | _, _ => "bad-op"
   | _ => "bad-op"
 
 end Driver
